@@ -332,10 +332,15 @@ func c16StraceUnit(in c16Input) Unit {
 			}
 			return n
 		}
-		pairs := [][2]string{{"write:", "write "}, {"rename:", "renameat"}, {"remove:", "unlinkat"}, {"close:", "close "}}
+		pairs := [][2]string{{"write:", "write "}, {"rename:", "renameat"}, {"remove:", "unlinkat"}}
 		for _, p := range pairs {
-			if a, b := cnt(rec.ops, p[0]), cnt(w.calls, p[1]); a != b {
-				c.R.HarnessErr = fmt.Sprintf("shim/system-call binding broken: %d %q operations in the shim trace, %d %q system calls in the traced window (%v vs %v)", a, p[0], b, p[1], rec.ops, w.calls)
+			a, b := cnt(rec.ops, p[0]), cnt(w.calls, p[1])
+			ok := a == b
+			if p[0] == "remove:" {
+				ok = b >= a && b <= 2*a // os.Remove tries unlink and, if that fails, rmdir
+			}
+			if !ok {
+				c.R.HarnessErr = fmt.Sprintf("shim/system-call binding broken: %d %q operations in the shim trace, %d %q system calls in the traced window", a, p[0], b, p[1])
 				return
 			}
 		}
